@@ -91,7 +91,33 @@ off64_t _GD_GzipSeek(struct gd_raw_file_* file, off64_t offset,
 
   offset *= GD_SIZE(data_type);
 
-  n = gd_gzseek((gzFile)file->edata, offset, SEEK_SET);
+  if (mode & GD_FILE_WRITE) {
+    /* Seeking forward in a stream open for writing means padding it with
+     * zeros.  gzseek() only records the request and leaves the zeros to the next
+     * gzwrite() or to gzclose(); if nothing was ever written to the stream, zlib
+     * (seen with 1.2.13) compresses a buffer it has not cleared when gzclose()
+     * comes first.  So write the zeros here. */
+    static const char zero[4096];
+    off64_t cur = gd_gztell((gzFile)file->edata);
+
+    if (cur < 0 || offset < cur) { /* gzseek can't go backwards here either */
+      dreturn("%i", -1);
+      return -1;
+    }
+
+    while (cur < offset) {
+      const unsigned len = (offset - cur > (off64_t)sizeof zero) ?
+        (unsigned)sizeof zero : (unsigned)(offset - cur);
+      const int w = gzwrite((gzFile)file->edata, zero, len);
+      if (w <= 0) {
+        dreturn("%i", -1);
+        return -1;
+      }
+      cur += w;
+    }
+    n = cur;
+  } else
+    n = gd_gzseek((gzFile)file->edata, offset, SEEK_SET);
 
   if (n == -1) {
     /* some implementations of gzseek return error on attempts to seek past the
